@@ -33,7 +33,7 @@ def one(m, budget):
         if r.returncode: res["error"] = "compile: " + r.stderr[-500:]; return res
         if m.get("suite", True):
             with SUITE_LOCK:
-                r = sh("go test -vet=off -count=1 -p 1 ./... 2>&1 | grep -v '^ok\\|no test files'", cwd=wt)
+                r = sh("flock /tmp/csvq-suite.lock go test -vet=off -count=1 -p 1 ./... 2>&1 | grep -v '^ok\\|no test files'", cwd=wt)
             res["suite_passes"] = (r.stdout.strip() == "")
             if not res["suite_passes"]: res["suite_output"] = r.stdout[-600:]
         res["checks"] = {}
